@@ -501,3 +501,97 @@ def r_edits(rep, facts, rid='C08/R10'):
         lost = [l for l in LINES if l not in touched and l.strip() and l not in outl and not (l.startswith('[[') and '[[arr]]' in touched)]
         rep.check(R, label, not lost, f'{len(out)} bytes, data as edited, {len([l for l in LINES if l.strip()]) - len(touched)} untouched lines verbatim',
                   f'after `{label}` the source line(s) {lost[:3]} of untouched entries are no longer in the printed text {out!r:.300}')
+
+
+EDIT_DOC2 = ('title = "x" # t\n'
+             'arr = [ 1, 2 ,  3 ] # a\n'
+             'multi = [\n'
+             '  "a", # first\n'
+             '  "b",\n'
+             ']\n'
+             'it = { k = 1, m = { n = 2 } } # i\n'
+             '\n'
+             '[s] # sec\n'
+             'pts = [ { x = 1 }, { x = 2 } ]\n'
+             'last = true\n')
+
+
+def r_value_edits(rep, facts, rid='C08/R11'):
+    """arrays and inline tables of a parsed document edited through the public API in the evaluator"""
+    import copy
+    R = rep.rule(rid, 'an edit inside a value changes what was asked and nothing else: a model document holding a one-line array, a multi-line array with comments, a nested inline table and an '
+                 'array of inline tables below a header is parsed and made editable in the evaluator, one operation of Array / InlineTable of the current tree is evaluated on it (push, insert, '
+                 'remove, replace, clear, retain-like removal; insert, remove of an inline-table entry; at the root and below the header), and the document is printed: the text must decode '
+                 '(Python\'s tomllib) to the original data with the same edit applied to plain lists and dicts, every source line of an untouched entry must still be there verbatim, and a '
+                 'replaced array element keeps the comment that stood next to it', floor=9)
+    A_, IT_ = 'toml_edit::array::Array::', 'toml_edit::inline_table::InlineTable::'
+    ref0 = tomllib.loads(EDIT_DOC2)
+    ival = lambda p, n: p.fn("<toml_edit::value::Value as core::convert::From<i64>>::from", n)
+
+    def value_at(root, *path):
+        """the Array / InlineTable struct stored under the key path"""
+        cur = root
+        for nm in path:
+            m = deref(cur[2]['items'])
+            it = deref(m.pairs[m.find(nm)][1])
+            cur = deref(it[2][0])
+            if isinstance(cur, tuple) and cur[0] == 'ctor' and cur[1].startswith(V):
+                cur = deref(cur[2][0])
+        return cur
+
+    def at(d, path):
+        for nm in path:
+            d = d[nm]
+        return d
+    edits = [
+        ('push onto the one-line array', lambda p, r: p.fn(A_ + 'push', value_at(r, 'arr'), ival(p, 4)), lambda d: d['arr'].append(4), ['arr = [ 1, 2 ,  3 ] # a'], None),
+        ('insert into the one-line array', lambda p, r: p.fn(A_ + 'insert', value_at(r, 'arr'), 1, ival(p, 9)), lambda d: d['arr'].insert(1, 9), ['arr = [ 1, 2 ,  3 ] # a'], None),
+        ('remove the first element of the one-line array', lambda p, r: p.fn(A_ + 'remove', value_at(r, 'arr'), 0), lambda d: d['arr'].pop(0), ['arr = [ 1, 2 ,  3 ] # a'], None),
+        ('replace the first element of the multi-line array', lambda p, r: p.fn(A_ + 'replace', value_at(r, 'multi'), 0, ival(p, 7)), lambda d: d['multi'].__setitem__(0, 7), ['  "a", # first'], '  7, # first'),
+        ('remove the last element of the multi-line array', lambda p, r: p.fn(A_ + 'remove', value_at(r, 'multi'), 1), lambda d: d['multi'].pop(1), ['  "a", # first', '  "b",'], None),          # (a comment after the comma belongs to the element that follows it)
+        ('clear the multi-line array', lambda p, r: p.fn(A_ + 'clear', value_at(r, 'multi')), lambda d: d['multi'].clear(), ['multi = [', '  "a", # first', '  "b",', ']'], None),
+        ('insert into the inline table', lambda p, r: p.fn(IT_ + 'insert', value_at(r, 'it'), 'q', ival(p, 5)), lambda d: d['it'].__setitem__('q', 5), ['it = { k = 1, m = { n = 2 } } # i'], None),
+        ('remove from the inline table', lambda p, r: p.fn(IT_ + 'remove', value_at(r, 'it'), 'k'), lambda d: d['it'].pop('k'), ['it = { k = 1, m = { n = 2 } } # i'], None),
+        ('remove from the nested inline table', lambda p, r: p.fn(IT_ + 'remove', value_at(r, 'it', 'm'), 'n'), lambda d: d['it']['m'].pop('n'), ['it = { k = 1, m = { n = 2 } } # i'], None),
+        ('remove an inline table from the array below the header', lambda p, r: p.fn(A_ + 'remove', value_at(r, 's', 'pts'), 0), lambda d: d['s']['pts'].pop(0), ['pts = [ { x = 1 }, { x = 2 } ]'], None),
+        ('push onto the array below the header', lambda p, r: p.fn(A_ + 'push', value_at(r, 's', 'pts'), ival(p, 3)), lambda d: d['s']['pts'].append(3), ['pts = [ { x = 1 }, { x = 2 } ]'], None),
+    ]
+    LINES = EDIT_DOC2.splitlines()
+    for label, run, refedit, touched, must_have in edits:
+        try:
+            p = Pipeline(facts)
+            doc = p.document(EDIT_DOC2)
+            im = [d for d in facts.bodies if d.startswith('toml_edit::document::ImDocument') and d.endswith('::into_mut')]
+            dm = p.fn(im[0], doc)
+            root = deref(deref(dm[2]['root'])[2][0])
+            run(p, root)
+            disp = facts.method('core::fmt::Display', 'toml_edit::document::DocumentMut', 'fmt')
+            n0 = len(p.it.calls)
+            p.it.apply_fn(facts.body(disp), [dm, ('formatter',)])
+            out = p.it.text(n0)
+        except Refused as ex:
+            rep.bad(R, label, f'the model document is refused: {ex}')
+            continue
+        except EvalPanic as ex:
+            rep.bad(R, label, f'{label}: the operation or the printer panics: {ex}')
+            continue
+        except (Unanalysable, TypeError, KeyError, IndexError, AttributeError, ValueError) as ex:
+            rep.incomplete(R, label, f'cannot evaluate `{label}` on the model document: {type(ex).__name__}: {ex}')
+            continue
+        want = copy.deepcopy(ref0)
+        refedit(want)
+        try:
+            got = tomllib.loads(out)
+        except tomllib.TOMLDecodeError as ex:
+            rep.bad(R, label, f'after `{label}` the document prints as text that is not valid TOML ({ex}): {out!r:.300}')
+            continue
+        from .rules_print import ordered
+        if got != want or ordered(got) != ordered(want):
+            rep.bad(R, label, f'after `{label}` the document prints as {out!r:.300}, which decodes to {got!r:.200}; the edit on plain lists and dicts gives {want!r:.200}')
+            continue
+        outl = out.splitlines()
+        lost = [l for l in LINES if l not in touched and l.strip() and l not in outl]
+        if must_have is not None and must_have not in outl:
+            lost.append(f'(expected line {must_have!r})')
+        rep.check(R, label, not lost, f'{len(out)} bytes, data as edited, untouched lines verbatim',
+                  f'after `{label}` the line(s) {lost[:3]} are not in the printed text {out!r:.300}')
